@@ -1559,3 +1559,71 @@ def scen_dict_tail(S, rng, fam, p):
             now = S.hc[DS].bytes(S.hc[DS].n) if fam == "h" else S.fast[DS].bytes(FAST_STATE)
             if now != ref:
                 S.fail("prop_fail", "the prepared dictionary stream was modified by a compression that uses it (use %d)" % use)
+
+def scen_attach_abandoned(S, rng, fam, p):
+    """C18 / C12: a session attaches a dictionary but compresses NOTHING (or only an empty input) while the hash table of the
+    working context is still in the clearedTable state (fresh context, or table just cleared by a table-type change); then the
+    documented reset and a new, dictionary-LESS session whose input shares content with the former dictionary.  The reset must
+    forget the attachment whatever tableType says: the new block has to decode without the old dictionary."""
+    st = S.res["stats"]
+    base = make_base(rng)
+    dn = rng.choice([64, 300, 2000, 8000, 20000])
+    d = make_block(rng, dn, b"", base)
+    da = S.arena.alloc(dn); S.write(da, d)
+    area = S.arena.alloc(40000)
+    DS, WS = 9, 0
+    levels = p.get("levels", HC_LEVELS_CHEAP)
+    if fam == "f":
+        S.f_new(DS); S.f_load(DS, da, dn, slow=rng.random() < 0.3)
+        S.f_new(WS)
+        pre = rng.choice(["fresh", "fresh", "typechange", "used"])
+        if pre == "typechange":
+            # byU16 one-shot, then resetStream_fast: the table type differs, LZ4_prepareTable clears the table (clearedTable again)
+            x = make_block(rng, 500, b"", base); S.write(area, x)
+            S.f_oneshot(WS, "fr", area, len(x), bound(len(x)), 1)
+            S.f_reset_fast(WS)
+        elif pre == "used":
+            x = make_block(rng, 500, b"", base); S.write(area, x)
+            S.f_continue(WS, area, len(x), bound(len(x)), 1, expect_ok=True)
+            S.f_reset_fast(WS)
+        st["abandoned_pre_" + pre] += 1
+        S.f_attach(WS, DS)
+        if rng.random() < 0.5:
+            S.f_continue(WS, area + 1000, 0, 16, 1)            # the legal 1-byte empty block
+            st["abandoned_empty_block"] += 1
+        how = rng.choice(["reset", "reset", "oneshot"])
+        if how == "reset":
+            S.f_reset_fast(WS)
+        else:
+            x = make_block(rng, rng.choice([0, 40, 3000]), d, base); S.write(area + 2000, x)
+            S.f_oneshot(WS, "fr", area + 2000, len(x), bound(len(x)), 1)
+            S.f_reset_fast(WS) if rng.random() < 0.5 else None
+            if S.fstate(WS)["ds"] and S.fstate(WS)["dict"] == 0:
+                S.f_reset_fast(WS)                                # a one-shot must be followed by a reset before streaming
+        dec = S.dec[("f", WS)]
+        pos = 8000
+        for j in range(rng.choice([1, 2])):
+            n = rng.choice([40, 300, 1000, 4000, 4097, 6000])
+            src = dict_input(rng, n, d, base)
+            dec.maxblock = max(dec.maxblock, n)
+            S.write(area + pos, src)
+            st["abandoned_session_blocks_f"] += 1
+            r, out = S.f_continue(WS, area + pos, n, bound(n), 1, expect_ok=True)
+            pos += n + rng.choice([0, 0, 64])
+    else:
+        S.h_new(DS, rng.choice(levels)); S.h_load(DS, da, dn)
+        S.h_new(WS, rng.choice(levels))
+        S.h_attach(WS, DS)
+        if rng.random() < 0.5:
+            S.h_continue(WS, area + 1000, 0, 16)
+        S.h_reset_fast(WS, rng.choice(levels))
+        dec = S.dec[("h", WS)]
+        pos = 8000
+        for j in range(rng.choice([1, 2])):
+            n = rng.choice([40, 300, 1000, 4000, 4097, 6000])
+            src = dict_input(rng, n, d, base)
+            dec.maxblock = max(dec.maxblock, n)
+            S.write(area + pos, src)
+            st["abandoned_session_blocks_h"] += 1
+            S.h_continue(WS, area + pos, n, bound(n))
+            pos += n + rng.choice([0, 0, 64])
